@@ -213,6 +213,121 @@ fn lookalike_clause(u: &Unit, unit: &Value, p: &bpaf::OptionParser<Val>, argv: &
     }
 }
 
+// ------------------------------------------------------------------------------------------
+// an env-backed argument inside a repeated adjacent command: every occurrence of the command
+// that does not write the argument takes the variable's value, wherever it stands in the chain
+// ------------------------------------------------------------------------------------------
+fn adjjob_opts() -> Opts {
+    let level = P::Arg { names: Names::long("level").env(VA), ty: Ty::U32, adjacent: false, metavar: "N".into() };
+    let job = P::Cmd { name: "job".into(), shorts: vec![], longs: vec![], inner: Box::new(Opts::new(P::Seq(vec![level]))), adjacent: true, help: None };
+    Opts::new(P::Seq(vec![P::Switch(Names::short('s')), job.many()]))
+}
+
+/// Some(expected) for the lines of the regular form `[-s] (job [--level N | --level=N] [-s])*`
+/// (one -s at most); None for every other line
+fn adjjob_model(argv: &[Tok], var: Option<&str>) -> Option<Result<Val, ()>> {
+    let w: Vec<String> = argv.iter().map(|t| t.lossy()).collect();
+    let mut s = 0;
+    let mut jobs: Vec<Option<u64>> = vec![];
+    let mut i = 0;
+    let num = |t: &str| t.parse::<u64>().ok();
+    while i < w.len() {
+        match w[i].as_str() {
+            "-s" => {
+                s += 1;
+                i += 1;
+            }
+            "job" => {
+                i += 1;
+                if i < w.len() && w[i] == "--level" {
+                    let n = num(w.get(i + 1)?)?;
+                    jobs.push(Some(n));
+                    i += 2;
+                } else if i < w.len() && w[i].starts_with("--level=") {
+                    jobs.push(Some(num(&w[i][8..])?));
+                    i += 1;
+                } else {
+                    jobs.push(None);
+                }
+            }
+            _ => return None,
+        }
+    }
+    if s > 1 {
+        return None;
+    }
+    let mut vals = vec![];
+    for j in jobs {
+        let n = match j {
+            Some(n) => n,
+            None => match var.map(|v| v.parse::<u64>()) {
+                Some(Ok(n)) => n,
+                _ => return Some(Err(())), // unset or not a number: the occurrence has no level
+            },
+        };
+        vals.push(Val::Cmd("job".into(), Box::new(Val::T(vec![Val::N(n)]))));
+    }
+    Some(Ok(Val::T(vec![Val::B(s == 1), Val::L(vals)])))
+}
+
+fn run_adjjob(len: usize, unit: &Value, only: Option<(&Env, &[Tok])>, ctx: &mut Ctx) {
+    let p = match build_checked(&adjjob_opts()) {
+        Ok(p) => p,
+        Err(_) => return,
+    };
+    let mut one = |argv: &[Tok], var: Option<&str>, ctx: &mut Ctx| {
+        let mut env = Env::new();
+        match var {
+            Some(v) => {
+                std::env::set_var(VA, v);
+                env.insert(VA.to_string(), Tok::s(v));
+            }
+            None => std::env::remove_var(VA),
+        }
+        ctx.begin_case(|| json!({"argv": argv, "env": env}));
+        ctx.s.evaluations += 1;
+        ctx.s.states += 1;
+        let m = match adjjob_model(argv, var) {
+            Some(m) => m,
+            None => {
+                ctx.s.skipped += 1;
+                return;
+            }
+        };
+        let r = run(&p, argv);
+        let ok = match (&m, &r) {
+            (Ok(a), Outcome::Value(b)) => a == b,
+            (Err(()), Outcome::Stderr(t)) => !t.trim().is_empty(),
+            _ => false,
+        };
+        if ok {
+            ctx.s.nontrivial += 1;
+            ctx.s.validated += 1;
+            ctx.count("adjacent-command-chains-judged");
+        } else {
+            let mut sig = BTreeMap::new();
+            sig.insert("clause".to_string(), "env-backed-argument-inside-a-repeated-adjacent-command".to_string());
+            sig.insert("expected".to_string(), if m.is_ok() { "value" } else { "failure" }.to_string());
+            sig.insert("observed".to_string(), r.class().to_string());
+            ctx.violation(Violation { property: "C18".into(), rule: "variable-is-the-fallback-of-every-occurrence".into(), sig, unit: unit.clone(), case: json!({"argv": argv, "env": env}), expected: match &m { Ok(v) => format!("{:?}", v), Err(()) => "a failure with a message (an occurrence of the command has no level)".into() }, observed: r.brief(), size: argv.len() * 1000 });
+        }
+    };
+    if let Some((env, argv)) = only {
+        let var = env.get(VA).map(|t| t.lossy());
+        one(argv, var.as_deref(), ctx);
+        std::env::remove_var(VA);
+        return;
+    }
+    let alpha = toks(&["job", "--level", "3", "--level=4", "-s"]);
+    for var in [None, Some("9"), Some("x")] {
+        tree(&alpha, len, &mut |argv| {
+            one(argv, var, ctx);
+            true
+        });
+    }
+    std::env::remove_var(VA);
+}
+
 impl Check for C18 {
     fn id(&self) -> &'static str {
         "C18"
@@ -240,16 +355,27 @@ impl Check for C18 {
                 out.push(Unit { level: Level { named: vec![a, b], tail: Tail::None, version: None, usage_fallback: false }, len: tier.pick(3, 4), vars: vec![VA.to_string(), VB.to_string()] });
             }
         }
-        out.into_iter().map(|u| serde_json::to_value(u).unwrap()).collect()
+        let mut out: Vec<Value> = out.into_iter().map(|u| serde_json::to_value(u).unwrap()).collect();
+        out.push(json!({"adjjob": tier.pick(5, 6)}));
+        out
     }
     fn run_unit(&self, unit: &Value, ctx: &mut Ctx) {
+        if let Some(n) = unit.get("adjjob").and_then(|n| n.as_u64()) {
+            run_adjjob(n as usize, unit, None, ctx);
+            return;
+        }
         let u: Unit = serde_json::from_value(unit.clone()).unwrap();
         run_states(&u, unit, ctx, None);
     }
     fn replay(&self, unit: &Value, case: &Value, ctx: &mut Ctx) {
-        let u: Unit = serde_json::from_value(unit.clone()).unwrap();
         let argv: Vec<Tok> = serde_json::from_value(case["argv"].clone()).unwrap_or_default();
         let env: Env = serde_json::from_value(case["env"].clone()).unwrap_or_default();
+        if let Some(n) = unit.get("adjjob").and_then(|n| n.as_u64()) {
+            ctx.s.evaluations += 1;
+            run_adjjob(n as usize, unit, Some((&env, &argv)), ctx);
+            return;
+        }
+        let u: Unit = serde_json::from_value(unit.clone()).unwrap();
         run_states(&u, unit, ctx, Some((&env, &argv, case["help"].as_bool() == Some(true))));
     }
     fn rule(&self) -> String {
